@@ -14,7 +14,9 @@ RULE = ('(a) single-threaded call histories of length up to 6 over {connect, sta
         'Non-trivial = history with at least one refusal or reconnect; distinct by history / schedule.')
 
 OPS = ['connect', 'status', 'disconnect', 'disconnect_imm', 'run']
-SERVERS = ['accept', 'refuse', 'disconnect', 'fail', 'eof']
+SERVERS = ['accept', 'refuse', 'disconnect', 'fail', 'eof', 'disconnect-enc']
+SECRET = bytes(range(50, 66))
+_ENC = {}
 
 
 def server_for(kind, ids, status_mode):
@@ -22,10 +24,20 @@ def server_for(kind, ids, status_mode):
         return sim.Server([], refuse=True)
     if status_mode:
         import json
+        kind = 'disconnect' if kind == 'disconnect-enc' else kind
         st = proto.frame(0, proto.string(json.dumps({'version': {'name': 'x', 'protocol': 757}})))
         return {'accept': sim.Server([], end='idle'), 'disconnect': sim.Server([st], end='idle'),
                 'fail': sim.Server([b'\xff\xff\xff\xff\xff\xff\xff'], end='idle'), 'eof': sim.Server([], end='eof')}[kind]
     ok = proto.frame(ids.login_success, ids.b_login_success())
+    if kind == 'disconnect-enc':
+        # an encrypted session that the server ends: encryption request in the clear, everything after it under the cipher
+        # (the shared secret is the recording fake's; the ciphertext comes from the model cipher)
+        if 'wire' not in _ENC:
+            import c10
+            frames, cut = c10.build_server(ids, [('enc', '-', b'tokn'), ('success',)])
+            plain = b''.join(frames) + proto.frame(ids.play_disconnect, proto.string('{"text":"bye"}'))
+            _ENC['wire'] = plain[:cut] + bytes(run_model([('mc_encrypt', [SECRET, [plain[cut:]]])])[0][0])
+        return sim.Server([_ENC['wire']], end='idle')
     return {'accept': sim.Server([ok], end='idle'),
             'disconnect': sim.Server([ok, proto.frame(ids.play_disconnect, proto.string('{"text":"bye"}'))], end='idle'),
             'fail': sim.Server([ok, b'\xff\xff\xff\xff\xff\xff\xff'], end='idle'),
@@ -39,7 +51,7 @@ def sequential(chk, histories):
     ids = proto.Ids(757)
     reqs, metas = [], []
     for hist, servers_kinds, reconnect_mode in histories:
-        net = sim.Net([]).install()
+        net = sim.Net([], urandom=SECRET).install()
         acts, obs_results, obs_state = [], [], []
         try:
             handler_fired = []
@@ -105,7 +117,7 @@ def sequential(chk, histories):
                 will_end = t.interrupt or (t.previous_thread is not None and False)
                 # a thread ends by itself if it is interrupted, or its server disconnects / fails / closes
                 sk = getattr(t, 'server_kind', None)
-                if not (t.interrupt or sk in ('disconnect', 'fail', 'eof')):
+                if not (t.interrupt or sk in ('disconnect', 'fail', 'eof', 'disconnect-enc')):
                     return                          # blocked in select for ever: stays alive
                 net.pending.pop(0)
                 t.sim_state = 'running'
@@ -140,7 +152,7 @@ def sequential(chk, histories):
                         obs_results.extend([0] + inner_res + [0])
                 else:
                     # a server disconnect packet (or a completed status query) makes the reactor call disconnect() itself
-                    own = sk == 'disconnect' and not t_interrupted_before[0] and not by_listener
+                    own = sk in ('disconnect', 'disconnect-enc') and not t_interrupted_before[0] and not by_listener
                     acts.extend(inner + ([[1]] if own else []) + [[3, k], [5, k]])
                     obs_results.extend(inner_res + ([1] if own else []) + [0, 0])
             t_interrupted_before = [False]
@@ -323,6 +335,15 @@ def run(chk):
         for h in itertools.product(base, repeat=n):
             for kinds in (['accept'] * 6, ['refuse', 'accept', 'disconnect', 'fail'], ['disconnect', 'fail', 'eof', 'accept']):
                 hist.append((list(h), kinds, 'none'))
+    # a connection that ended with a backlog / by an immediate disconnect, then a refused reconnect, then disconnects
+    for h in (['connect', 'disconnect_imm', 'connect', 'disconnect', 'disconnect_imm', 'connect'], ['connect', 'run', 'connect', 'disconnect', 'connect', 'run'],
+              ['status', 'disconnect_imm', 'connect', 'disconnect', 'status']):
+        for kinds in (['disconnect', 'refuse', 'accept', 'fail'], ['accept', 'refuse', 'refuse', 'accept'], ['fail', 'refuse', 'eof', 'accept']):
+            hist.append((h, kinds, 'none'))
+    for h in (['connect', 'run', 'connect', 'disconnect', 'disconnect', 'connect', 'run'], ['connect', 'run', 'connect', 'disconnect_imm', 'connect'],
+              ['connect', 'run', 'disconnect', 'connect', 'disconnect', 'disconnect']):
+        hist.append((h, ['disconnect-enc', 'refuse', 'disconnect-enc', 'accept'], 'none'))
+        hist.append((h, ['disconnect-enc', 'refuse', 'refuse', 'accept'], 'none'))
     for _ in range(1500 if th else 300):
         n = rng.randrange(3, 7)
         hist.append(([rng.choice(base) for _ in range(n)], [rng.choice(SERVERS) for _ in range(6)], rng.choice(['none', 'none', 'listener', 'handler'])))
@@ -347,6 +368,16 @@ def run(chk):
                             stack.append([d[2] for d in o['decisions'][:k]] + [alt])
                 if cur_run and k > 0 and chosen != o['decisions'][k - 1][2]:
                     pre += 1
+    # schedules kept from earlier findings run first, on every run (the real code may take fewer steps than the plan: the rest
+    # of the plan is then ignored and the default policy continues)
+    import os, json
+    cpath = os.path.join(common.VERIF, 'corpus', 'c16_schedules.json')
+    if os.path.exists(cpath):
+        for item in json.load(open(cpath)):
+            plan = item['schedule']
+            o = concurrent_run(chk, item['programs'], lambda k, r, d, plan=plan: plan[k] if k < len(plan) else d)
+            chk.count('concurrent-corpus', [item['programs'], plan], True)
+            check_concurrent(chk, item['programs'], o, 'concurrent-corpus')
     for _ in range(200 if th else 40):
         progs = [[rng.choice(['connect', 'connect', 'status', 'disconnect', 'disconnect_imm']) for _ in range(rng.randrange(1, 4))] for _ in range(2)]
         o = concurrent_run(chk, progs, c12.random_policy(rng, rng.choice([0.4, 0.7])))
